@@ -585,6 +585,31 @@ def _overlap(r1, r2):
     return False
 
 
+_PASS_THROUGH = {'deref', 'deref_mut', 'as_ref', 'as_mut', 'borrow', 'borrow_mut', 'index', 'index_mut', 'as_mut_slice', 'as_slice'}
+
+
+def _op_roots(fn, o, depth=6):
+    """objects an operand designates, also through `Deref`-like calls: `w.write_u8(..)` on a `DebugInfo<W>` is a call on
+    `deref_mut(w)`, and it is `w` that the call modifies"""
+    if o[0] == 'k':
+        return set()
+    out = _roots(leaves(fn, o, 14))
+    base = o[1][0]
+    if depth > 0 and base > fn.argc:
+        sd = fn.single_def(base)
+        if sd is not None:
+            if sd[1] == 'term':
+                if sd[2]['f'].get('name') in _PASS_THROUGH and sd[2]['a']:
+                    out |= _op_roots(fn, sd[2]['a'][0], depth - 1)
+            else:
+                rv = sd[2]
+                if rv[0] == 'use' and rv[1][0] != 'k':
+                    out |= _op_roots(fn, rv[1], depth - 1)
+                elif rv[0] in ('ref', 'ptr') and rv[1][0] > fn.argc:
+                    out |= _op_roots(fn, ['c', [rv[1][0]]], depth - 1)
+    return out
+
+
 def _is_mut_ref(fn, o):
     if o[0] not in ('c', 'm') or len(o[1]) != 1:
         return False
@@ -617,7 +642,7 @@ def order_fingerprint(fn, summ):
                 ls = [leaves(fn, a_, 14) for a_ in t['a']]
                 rd, wr = set(), set()
                 for a_, l_ in zip(t['a'], ls):
-                    (wr if _is_mut_ref(fn, a_) else rd).update(_roots(l_))
+                    (wr if _is_mut_ref(fn, a_) else rd).update(_op_roots(fn, a_))
                 d = t['d']
                 if len(d) > 1:
                     base, names = summ.root_of(fn, d)
